@@ -25,6 +25,7 @@ import (
 
 type ruKey struct {
 	Id     int    `json:"id"`
+	Src    int    `json:"src"` // which source holds it (several sources are migrated at once into the one target)
 	Db     int    `json:"db"`
 	Name   string `json:"name"`
 	Kind   string `json:"kind"`
@@ -38,6 +39,7 @@ type ruKey struct {
 }
 
 type ruDb struct {
+	Src   int     `json:"src"`
 	Db    int     `json:"db"`
 	Pages [][]int `json:"pages"` // key ids per page
 }
@@ -52,9 +54,9 @@ type ruCfg struct {
 	FkeyWhite     []string `json:"fkey_white"`
 	FkeyBlack     []string `json:"fkey_black"`
 	KeyFile       bool     `json:"key_file"`
-	Qps           int      `json:"qps"`           // 0: effectively unlimited
-	ScanLullMs    int      `json:"scan_lull_ms"`  // the source takes this long to answer its second SCAN (a lull in which the QoS bucket fills up)
-	BlankAt       []int    `json:"blank_at"` // key file: an empty line (the name of a key that does not exist) before the line with this index
+	Qps           int      `json:"qps"`          // 0: effectively unlimited
+	ScanLullMs    int      `json:"scan_lull_ms"` // the source takes this long to answer its second SCAN (a lull in which the QoS bucket fills up)
+	BlankAt       []int    `json:"blank_at"`     // key file: an empty line (the name of a key that does not exist) before the line with this index
 	TargetVersion string   `json:"target_version"`
 }
 
@@ -64,12 +66,13 @@ type ruPre struct {
 }
 
 type ruCase struct {
-	Id   int     `json:"id"`
-	Cfg  ruCfg   `json:"cfg"`
-	Keys []ruKey `json:"keys"`
-	Dbs  []ruDb  `json:"dbs"`
-	Pre  []ruPre `json:"pre"` // keys already in the target (for key_exists = rewrite)
-	Seed int64   `json:"seed"`
+	Id      int     `json:"id"`
+	Sources int     `json:"sources"` // number of sources (default 1)
+	Cfg     ruCfg   `json:"cfg"`
+	Keys    []ruKey `json:"keys"`
+	Dbs     []ruDb  `json:"dbs"`
+	Pre     []ruPre `json:"pre"` // keys already in the target (for key_exists = rewrite)
+	Seed    int64   `json:"seed"`
 }
 
 type ruIn struct {
@@ -97,12 +100,21 @@ func ruRun(in []byte) (interface{}, error) {
 	for ci := range cfg.Cases {
 		c := &cfg.Cases[ci]
 		now := func() int64 { return ruNow }
-		src := mredis.New(mredis.Options{Now: now, Password: cfg.SrcPw})
-		tgt := mredis.New(mredis.Options{Now: now, Version: c.Cfg.TargetVersion, Password: cfg.TgtPw})
-		saddr, err := src.Listen()
-		if err != nil {
-			return nil, err
+		if c.Sources < 1 {
+			c.Sources = 1
 		}
+		var srcs []*mredis.Server
+		var saddrs []string
+		for si := 0; si < c.Sources; si++ {
+			s := mredis.New(mredis.Options{Now: now, Password: cfg.SrcPw})
+			a, err := s.Listen()
+			if err != nil {
+				return nil, err
+			}
+			srcs = append(srcs, s)
+			saddrs = append(saddrs, a)
+		}
+		tgt := mredis.New(mredis.Options{Now: now, Version: c.Cfg.TargetVersion, Password: cfg.TgtPw})
 		taddr, err := tgt.Listen()
 		if err != nil {
 			return nil, err
@@ -121,69 +133,78 @@ func ruRun(in []byte) (interface{}, error) {
 			if k.TtlMs > 0 {
 				e.ExpireAt = ruNow + k.TtlMs
 			}
-			src.Put(k.Db, k.Name, e)
+			srcs[k.Src].Put(k.Db, k.Name, e)
 			if k.Vanish != "never" {
-				vanishAt[fmt.Sprintf("%d/%s", k.Db, k.Name)] = k.Vanish
+				vanishAt[fmt.Sprintf("%d/%d/%s", k.Src, k.Db, k.Name)] = k.Vanish
 			}
 		}
 		for _, p := range c.Pre {
 			tgt.Put(p.Db, p.Name, mredis.Entry{Val: rdbref.Value{Kind: "string", Str: []byte("old")}})
 		}
 		// scripted pagination: arbitrary, non-sequential cursor values; "0" starts and ends a database
-		pages := map[int][][]int{}
-		for _, d := range c.Dbs {
-			pages[d.Db] = d.Pages
-		}
+		// scripted pagination per source: arbitrary, non-sequential cursor values; "0" starts and ends a database
 		cursorOf := func(i int) string { return strconv.Itoa(1000003*i + 17) }
 		scans := 0
-		src.SetScanScript(func(db int, cursor string, args [][]byte) (string, [][]byte, bool) {
-			scans++
-			ps := pages[db]
-			idx := 0
-			if cursor != "0" {
-				idx = -1
-				for i := range ps {
-					if cursorOf(i) == cursor {
-						idx = i
+		nscan := 0
+		for si := range srcs {
+			si := si
+			src := srcs[si]
+			pages := map[int][][]int{}
+			for _, d := range c.Dbs {
+				if d.Src == si {
+					pages[d.Db] = d.Pages
+				}
+			}
+			src.SetScanScript(func(db int, cursor string, args [][]byte) (string, [][]byte, bool) {
+				mu.Lock()
+				scans++
+				mu.Unlock()
+				ps := pages[db]
+				idx := 0
+				if cursor != "0" {
+					idx = -1
+					for i := range ps {
+						if cursorOf(i) == cursor {
+							idx = i
+						}
 					}
 				}
-			}
-			if idx < 0 || idx >= len(ps) {
-				return "0", nil, true
-			}
-			var out [][]byte
-			for _, id := range ps[idx] {
-				out = append(out, []byte(byId[id].Name))
-			}
-			next := "0"
-			if idx+1 < len(ps) {
-				next = cursorOf(idx + 1)
-			}
-			return next, out, true
-		})
-		nscan := 0
-		src.SetHook(func(conn, db int, cmd string, args [][]byte) mredis.HookResult {
-			if cmd == "SCAN" && c.Cfg.ScanLullMs > 0 {
-				mu.Lock()
-				nscan++
-				n := nscan
-				mu.Unlock()
-				if n == 2 {
-					time.Sleep(time.Duration(c.Cfg.ScanLullMs) * time.Millisecond)
+				if idx < 0 || idx >= len(ps) {
+					return "0", nil, true
 				}
-			}
-			if (cmd == "DUMP" || cmd == "PTTL") && len(args) == 1 {
-				mu.Lock()
-				ph := vanishAt[fmt.Sprintf("%d/%s", db, args[0])]
-				mu.Unlock()
-				if (cmd == "DUMP" && ph == "dump") || (cmd == "PTTL" && ph == "pttl") {
-					src.Delete(db, string(args[0]))
+				var out [][]byte
+				for _, id := range ps[idx] {
+					out = append(out, []byte(byId[id].Name))
 				}
-			}
-			return mredis.HookResult{}
-		})
+				next := "0"
+				if idx+1 < len(ps) {
+					next = cursorOf(idx + 1)
+				}
+				return next, out, true
+			})
+			src.SetHook(func(conn, db int, cmd string, args [][]byte) mredis.HookResult {
+				if cmd == "SCAN" && c.Cfg.ScanLullMs > 0 {
+					mu.Lock()
+					nscan++
+					n := nscan
+					mu.Unlock()
+					if n == 2 {
+						time.Sleep(time.Duration(c.Cfg.ScanLullMs) * time.Millisecond)
+					}
+				}
+				if (cmd == "DUMP" || cmd == "PTTL") && len(args) == 1 {
+					mu.Lock()
+					ph := vanishAt[fmt.Sprintf("%d/%d/%s", si, db, args[0])]
+					mu.Unlock()
+					if (cmd == "DUMP" && ph == "dump") || (cmd == "PTTL" && ph == "pttl") {
+						src.Delete(db, string(args[0]))
+					}
+				}
+				return mredis.HookResult{}
+			})
+		}
 		// ---- configuration
-		conf.Options.SourceAddressList = []string{saddr}
+		conf.Options.SourceAddressList = saddrs
 		conf.Options.TargetAddressList = []string{taddr}
 		conf.Options.SourceAuthType, conf.Options.TargetAuthType = "auth", "auth"
 		conf.Options.SourcePasswordRaw, conf.Options.TargetPasswordRaw = cfg.SrcPw, cfg.TgtPw
@@ -317,17 +338,21 @@ func ruRun(in []byte) (interface{}, error) {
 		jkeys := []map[string]interface{}{}
 		for i := range c.Keys {
 			k := &c.Keys[i]
-			jkeys = append(jkeys, map[string]interface{}{"id": k.Id, "db": k.Db, "vanish": k.Vanish, "ttl": k.TtlMs > 0, "scanned": k.Scanned, "passes": k.Passes})
+			jkeys = append(jkeys, map[string]interface{}{"id": k.Id, "src": k.Src, "db": k.Db, "vanish": k.Vanish, "ttl": k.TtlMs > 0, "scanned": k.Scanned, "passes": k.Passes})
 		}
-		tr.Emit(tracer.Ev{"e": "rcase", "case": c.Id, "keys": jkeys, "scans": scans, "tdb": c.Cfg.Tdb})
+		tr.Emit(tracer.Ev{"e": "rcase", "case": c.Id, "keys": jkeys, "scans": scans, "tdb": c.Cfg.Tdb, "sources": c.Sources})
 		tr.Emit(tracer.Ev{"e": "rend", "case": c.Id, "finished": finished, "hung": hung, "err": errText, "target": target, "foreign": foreign,
 			"expanded_cmds": expanded, "wall_ms": int(wall / time.Millisecond)})
 		if !hung {
-			src.Close()
+			for _, s := range srcs {
+				s.Close()
+			}
 			tgt.Close()
 		} else {
 			stats["hung"]++
-			src.KillConns()
+			for _, s := range srcs {
+				s.KillConns()
+			}
 			tgt.KillConns()
 		}
 		if conf.Options.ScanKeyFile != "" {
